@@ -248,6 +248,32 @@ class EncodeDecode(Family):
                 w2 = R.encode(hrp2, ver, prog)
                 if str(o) != w2:
                     raise Viol('str() of an address object created under %s and printed (again) with %s selected' % (HRP_CHAIN[hrp], HRP_CHAIN[hrp2]), w2, str(o))
+            # the same for an object obtained by PARSING the text, and for the parser itself: a text is accepted exactly
+            # under the chain whose prefix it carries, whatever was parsed (or refused) under other chains before
+            def parse(text):
+                try:
+                    x = B.CBech32Data(text)
+                    return x, (x.witver, bytes(x))
+                except B.Bech32Error:
+                    return None, None
+            others = [h for h in ('tb', 'bc', 'bcrt') if h != hrp][:2]
+            foreign = [R.encode(h2, ver, prog) for h2 in others]
+            bitcoin.SelectParams(HRP_CHAIN[hrp])
+            po, r = parse(want)
+            if r != (ver, prog):
+                raise Viol('CBech32Data(%r) on %s' % (want, HRP_CHAIN[hrp]), (ver, prog), r)
+            for ftxt in foreign:
+                if parse(ftxt)[1] is not None or parse(ftxt.upper())[1] is not None:
+                    raise Viol('CBech32Data(%r) accepted on %s' % (ftxt, HRP_CHAIN[hrp]), None, parse(ftxt)[1])
+            for hrp2, ftxt in list(zip(others, foreign)) + [(hrp, want)]:
+                bitcoin.SelectParams(HRP_CHAIN[hrp2])
+                if str(po) != ftxt:
+                    raise Viol('str() of an address object parsed under %s and printed with %s selected' % (HRP_CHAIN[hrp], HRP_CHAIN[hrp2]), ftxt, str(po))
+                for text in (want, want.upper()) + tuple(foreign):
+                    expect = (ver, prog) if text.lower() == ftxt else None
+                    got = parse(text)[1]
+                    if got != expect:
+                        raise Viol('CBech32Data(%r) with %s selected, after the same text was %s under another chain' % (text, HRP_CHAIN[hrp2], 'refused' if expect else 'parsed'), expect, got)
         return 'ok', True
 
 
